@@ -128,10 +128,15 @@ func (r *Reflog) Show() {
 			referenceString = color.BlueString("HEAD -> ") + fmt.Sprintf("%s, ", record.Head) + referenceString
 		}
 
+		// a record without a commit (written when a branch is renamed) shows zeros
+		shortHash := strings.Repeat("0", 7)
+		if record.Hash != nil {
+			shortHash = record.Hash.String()[:7]
+		}
 		if referenceString == "" {
-			fmt.Printf("%s HEAD@{%d}: %s: %s\n", color.YellowString(record.Hash.String()[:7]), i, record.recType, record.message)
+			fmt.Printf("%s HEAD@{%d}: %s: %s\n", color.YellowString(shortHash), i, record.recType, record.message)
 		} else {
-			fmt.Printf("%s (%s) HEAD@{%d}: %s: %s\n", color.YellowString(record.Hash.String()[:7]), referenceString, i, record.recType, record.message)
+			fmt.Printf("%s (%s) HEAD@{%d}: %s: %s\n", color.YellowString(shortHash), referenceString, i, record.recType, record.message)
 		}
 	}
 }
